@@ -1,4 +1,5 @@
 """Independent reference models (plain lists/dicts; no dataflows, no datapackage)."""
+import decimal
 import re
 
 
@@ -123,12 +124,20 @@ def computed_value(op, values, with_, row):
         return with_.format(**row)
     if op == 'join':
         return with_.join(str(v) for v in values)
+    def total():
+        t = values[0]
+        for v in values[1:]:
+            t = t + v
+        return t
     if op == 'sum':
-        return sum(values)
+        return total() if values else 0
     if not values:
         return None         # nothing to aggregate: null (like join's aggregates over an all-null group)
     if op == 'avg':
-        return sum(values) / len(values)
+        if all(isinstance(v, int) and not isinstance(v, bool) for v in values):
+            # the exact average of integers (a `number`, i.e. a Decimal), also beyond 2**53
+            return decimal.Decimal(total()) / len(values)
+        return total() / len(values)
     if op == 'min':
         return min(values)
     if op == 'max':
@@ -148,12 +157,17 @@ def add_computed(fields, rows, specs):
         t = s['target']
         out_fields.append({'name': t} if isinstance(t, str) else dict(t))
     out_rows = []
+    ftypes = {f['name']: f.get('type') for f in fields}
     for r in rows:
         r = dict(r)
         for s in specs:
             t = s['target'] if isinstance(s['target'], str) else s['target']['name']
             vals = [r.get(c) for c in s.get('source', []) if r.get(c) is not None]
             r[t] = computed_value(s['operation'], vals, s.get('with', ''), r)
+            if s['operation'] == 'sum' and not vals and s.get('source') and \
+                    all(ftypes.get(c) == 'duration' for c in s['source']):
+                import datetime
+                r[t] = datetime.timedelta(0)        # the sum of no durations
         out_rows.append(r)
     return out_fields, out_rows
 
